@@ -225,14 +225,17 @@ class FixedMasks:
 def base_requests():
     return [None,
             HttpRequest(method=b"GET", uri=b"", params={}, headers={}, body=b""),
-            HttpRequest(method=b"POST", uri=b"", params={b"z": b"1"}, headers={b"User-Agent": b"Mozilla"}, body=b"old")]
+            HttpRequest(method=b"POST", uri=b"", params={b"z": b"1"}, headers={b"User-Agent": b"Mozilla"}, body=b"old"),
+            # the termination places already hold something (a previous message built on the same request)
+            HttpRequest(method=b"GET", uri=b"", params={b"q": b"stale", b"id": b"stale"},
+                        headers={b"Cookie": b"stale", b"X-Data": b"stale", b"Accept": b"old"}, body=b"stale")]
 
 
 c_rt = Component("programs-both-directions",
                  "random valid programs: 1-3 build blocks (distinct members and termination places: print, 2 headers, 2 parameters, "
                  "uri_append with an empty initial URI), 0-5 encoders per block drawn from all seven with empty / short arguments, "
                  "static _header/_hostheader/_parameter decorations, mixed-case step names, payloads empty / 1-48 bytes / all 256 "
-                 "values, initial request None / empty / pre-populated; library transform == reference transform under the same "
+                 "values, initial request None / empty / pre-populated / already holding stale values at the termination places; library transform == reference transform under the same "
                  "mask keys, library recover and reference recover of the library message, library recover of the reference message; "
                  "600 programs quick / 30000 thorough, seed=VERIF_SEED")
 c_srv = Component("server-programs-reverse-build",
@@ -286,8 +289,8 @@ N = 600 if TIER == "quick" else 30000
 for i in range(N):
     nblocks = 1 + i % 3
     steps, members = gen_program(nblocks)
-    request = base_requests()[i % 3]
-    check_program(c_rt, steps, members, request, (repr(steps), i % 3))
+    request = base_requests()[i % 4]
+    check_program(c_rt, steps, members, request, (repr(steps), i % 4))
 
 # every single encoder on every payload length 0..24 (block alignments of base64 / nibble pairs / mask key)
 for e in ENC:
